@@ -239,6 +239,18 @@ class VStr(V):
         return f"VStr({self.c!r})" if self.c is not None else f"VStr<{self.t}>"
 
 
+class VAny(V):
+    """a value about which nothing is known (undeclared mutable class state at function entry)"""
+    __slots__ = ("name", "t")
+
+    def __init__(self, name):
+        self.name = name
+        self.t = z3.Const(fresh("any_" + name), STR)
+
+    def __repr__(self):
+        return f"VAny({self.name})"
+
+
 class VTuple(V):
     __slots__ = ("items",)
 
